@@ -5,6 +5,7 @@
 import Acra.Py.IntOps
 import Acra.Model.PES
 import Acra.Model.Ch11
+import Acra.Model.PMT
 namespace Acra.Lemmas.SrcTie
 open Acra Acra.Py
 
@@ -113,5 +114,52 @@ theorem reduce_add_natCast (ws : List Nat) :
     have := foldl_add_natCast xs x
     simp only [Model.Ch11.sumList]
     rw [← this]; rfl
+
+/-! ### folds whose accumulator stays a non-negative int -/
+
+/-- a fold over ints that maps casts to casts is the cast of the fold over naturals -/
+theorem foldl_natCast {β : Type} (F : Int → Int → Int) (G : Nat → β → Nat) (g : β → Int)
+    (h : ∀ (a : Nat) (b : β), F (a : Int) (g b) = ((G a b : Nat) : Int)) (l : List β) (a : Nat) :
+    List.foldl F (a : Int) (l.map g) = ((List.foldl G a l : Nat) : Int) := by
+  induction l generalizing a with
+  | nil => rfl
+  | cons b bs ih => simp only [List.map_cons, List.foldl_cons, h, ih]
+
+/-- testing one bit: `c & 2^k` is non-zero iff bit `k` of `c` is set -/
+theorem and_two_pow_ne_zero (c k : Nat) : (c &&& 2 ^ k ≠ 0) ↔ (c / 2 ^ k % 2 = 1) := by
+  rw [and_field c 1 1 k (2 ^ k) (by decide) (by simp)]
+  have hp : 0 < 2 ^ k := Nat.two_pow_pos k
+  rcases Nat.mod_two_eq_zero_or_one (c / 2 ^ k) with h | h
+  · simp [h]
+  · simp [h]
+
+/-- one shift step of `crc32mpeg2` -/
+theorem crcShift_tie (c : Nat) :
+    (if band (c : Int) 2147483648 ≠ 0 then bxor (shl (c : Int) 1) 79764919 else shl (c : Int) 1)
+      = ((Model.PMT.crcShift c : Nat) : Int) := by
+  unfold Model.PMT.crcShift
+  have hc : (band (c : Int) 2147483648 ≠ 0) ↔ (c / 2147483648 % 2 = 1) := by
+    rw [band_natCast_lit]
+    have := and_two_pow_ne_zero c 31
+    simpa using this
+  have hs : shl (c : Int) 1 = ((c * 2 : Nat) : Int) := by
+    rw [shl_natCast, toNat_lit, Nat.shiftLeft_eq]
+  rw [hs]
+  by_cases h : c / 2147483648 % 2 = 1
+  · rw [if_pos (hc.mpr h), if_pos h, bxor_natCast_lit]
+  · rw [if_neg (fun x => h (hc.mp x)), if_neg h]
+
+theorem range8 : Py.range 8 = [0, 1, 2, 3, 4, 5, 6, 7] := by decide
+
+/-- one byte step of `crc32mpeg2` -/
+theorem crcByte_tie (c : Nat) (b : UInt8) :
+    List.foldl (fun (crc : Int) (_ : Int) =>
+        if band crc 2147483648 ≠ 0 then bxor (shl crc 1) 79764919 else shl crc 1)
+      (bxor (c : Int) (shl ((b.toNat : Nat) : Int) 24)) (Py.range 8)
+    = ((Model.PMT.crcByte c b : Nat) : Int) := by
+  rw [range8]
+  have h0 : bxor (c : Int) (shl ((b.toNat : Nat) : Int) 24) = ((c ^^^ (b.toNat * 16777216) : Nat) : Int) := by
+    rw [shl_natCast, toNat_lit, Nat.shiftLeft_eq, bxor_natCast]
+  simp only [List.foldl_cons, List.foldl_nil, h0, crcShift_tie, Model.PMT.crcByte]
 
 end Acra.Lemmas.SrcTie
